@@ -144,15 +144,17 @@ class Prop:
             "non-negative integer values (random 0/1 cores, sums/products of rank-1 masks and of an independently written "
             "weight automaton, entries with multiplicity up to 12, negative core entries, exact and inexact gauge changes "
             "on the bonds, zero tensors, size-1 modes, N in 1..6) compared with the lexicographic enumeration with "
-            "multiplicity of the NumPy-decompressed tensor. Non-trivial: the automaton accepts some but not all strings "
+            "multiplicity of the NumPy-decompressed tensor; the same for tensors with CP cores and Tucker factors; weight lists "
+            "that repeat a weight, and lists containing a negative weight (must raise). Non-trivial: the automaton accepts some but not all strings "
             "/ the list has at least two rows; distinct = distinct arguments (tensors by content).")
     TRUSTED = ["harness/props/c16.py: brute-force tables over all strings; lib.dense_np decompression of explicit tensors",
                "tn.Tensor.torch() decompression (property C01) is used to observe weight_mask and weight; "
                "weight_one_hot is observed by contracting its cores in NumPy with the last bond left open"]
-    ASSUMPTIONS = ["weight lists are sets (no duplicates); all weights are non-negative",
-                   "accepted_inputs inputs are plain TT tensors (no Tucker factors, no CP cores, not batched)",
+    ASSUMPTIONS = ["weight lists may repeat a weight (it must count once); a negative weight anywhere in the list must be rejected",
+                   "accepted_inputs inputs are unbatched; CP / Tucker inputs are compared with the enumeration only (the Coq "
+                   "model and C16_accepted cover plain TT networks, which the implementation converts to first)",
                    "tables are exhaustive only up to N = 6 and alphabet size 4"]
-    THEOREMS = ["C16_one_hot", "C16_mask", "C16_mask_01", "C16_weight", "C16_accepted"]
+    THEOREMS = ["C16_one_hot", "C16_mask", "C16_mask_01", "C16_mask_accepts_exactly", "C16_weight", "C16_accepted"]
 
     # ---------------------------------------------------------------- generation
     def generate(self, rng, tier):
@@ -168,6 +170,7 @@ class Prop:
             ws = [w] if isinstance(w, int) else list(w)
             cases.append({"op": "weight_mask", "N": N, "weight": w, "wkind": wkind, "nsymbols": ns,
                           "tags": {"op": "weight_mask", "N": N, "nsym": nstag(ns), "wkind": wkind, "nweights": len(ws),
+                                   "repeated_weight": len(set(ws)) < len(ws),
                                    "w_gt_N": bool(max(ws) > N), "w_gt_max": bool(max(ws) > mx), "w_zero": bool(0 in ws)}})
 
         # ---- weight_mask, single weights: the full grid
@@ -189,6 +192,15 @@ class Prop:
                     ws = list(dict.fromkeys(ws))
                     mask(N, ws, ns, rng.choice(["list", "tuple", "ndarray"]))
             mask(N, [N, 0], None, "list")
+            # a weight listed twice counts once; a negative weight anywhere is rejected
+            for ns in (2, 3):
+                mx = N * (ns - 1)
+                a = rng.randint(0, mx); b = rng.randint(0, mx)
+                mask(N, [a, a], ns, rng.choice(["list", "ndarray"]))
+                mask(N, [a, b, a, b], ns, "list")
+                cases.append({"op": "weight_mask", "N": N, "weight": rng.choice([[a, -1], [-1, a], [a, b, -2]]), "wkind": "list",
+                              "nsymbols": ns, "must_raise": True,
+                              "tags": {"op": "weight_mask", "N": N, "nsym": nstag(ns), "wkind": "list", "negative_weight": True}})
         # ---- per-position alphabets
         for _ in range(250 if quick else 2000):
             N = rng.randint(1, 6)
@@ -230,7 +242,10 @@ class Prop:
 
         # ---- accepted_inputs
         def acc(cores, kind):
-            tj = tt_json(cores)
+            return acc_json(tt_json(cores), kind)
+
+        def acc_json(tj, kind):
+            cores = [m["core"] if m["kind"] == "tt" else [m["core"]] for m in tj["modes"]]
             d = dense_np(tj)
             k = np.rint(d)
             if np.max(np.abs(d - k)) > 1e-9 or k.min() < 0 or k.sum() > 4000:
@@ -241,7 +256,7 @@ class Prop:
                                        "3-20" if k.sum() <= 20 else "21+"),
                                    "size1": bool(1 in d.shape), "last_nonzero_multi": bool(
                                        np.any(k.reshape(-1, d.shape[-1])[:, 1:] >= 2)) if d.shape[-1] > 1 else False,
-                                   "maxrank": int(max(np.asarray(c).shape[2] for c in cores))}})
+                                   "maxrank": int(max(np.asarray(c).shape[-1] for c in cores))}})
             return True
 
         def rshape(N):
@@ -301,6 +316,17 @@ class Prop:
                 cores = masksum(N, shape, rng.randint(1, 3))
                 cores[-1][:, :-1, :] = 0
             if acc(cores, kind):
+                made += 1
+        # other formats (CP cores, Tucker factors): the listing is defined on the tensor's own indices
+        made = 0; tries = 0
+        while made < (150 if quick else 1500) and tries < 20000:
+            tries += 1
+            N = rng.choice([1, 2, 2, 3, 3, 4])
+            kinds = [rng.choice(KINDS) for _ in range(N)]
+            if all(k == ("tt", False) for k in kinds):
+                continue
+            tj = rand_tensor_json(rng, rshape(N), kinds=kinds, maxr=2, lo=rng.choice([0, 0, -1]), hi=rng.choice([1, 1, 2]))
+            if acc_json(tj, "formats"):
                 made += 1
         # exhaustive tiny space: all 0/1 tensors of shape (2,) and (2,2) as rank-1/2 TT, all value patterns 0..2 of shape (2,2)
         for vals in itertools.product((0, 1, 2), repeat=4):
@@ -363,6 +389,8 @@ class Prop:
         raise ValueError(op)
 
     def agree(self, case, res, exp):
+        if case.get("must_raise"):
+            return (not res.get("ok")), "a negative weight was accepted"
         if not res.get("ok"):
             return False, "implementation raised %s: %s" % (res.get("err"), res.get("msg"))
         if res["shape"] != exp["shape"]:
